@@ -4,6 +4,7 @@ Data file operations and readers/writers for the Python Iceberg implementation
 
 import os
 import tempfile
+from datetime import datetime, time
 from typing import TYPE_CHECKING, Any, Dict, Iterator, List, Optional, Tuple, Union
 
 import pyarrow as pa
@@ -27,6 +28,11 @@ if TYPE_CHECKING:
     from .file_manager import FileManager
 
 logger = get_logger(__name__)
+
+# Field types stored as an integer by Arrow (day / microsecond counts for the
+# temporal ones). pyarrow's Python->Arrow conversion silently TRUNCATES a float
+# given for such a column (1.5 -> 1, -0.5 -> 0) instead of raising.
+_INTEGER_BACKED_TYPES = frozenset({"int", "long", "date", "time", "timestamp"})
 
 # Exceptions PyArrow raises when data genuinely does not fit a schema. Anything
 # else is a bug in our conversion code and must not be reported as "incompatible".
@@ -511,12 +517,21 @@ class DataFileManager:
           pyarrow's schema projection.
         - Required (non-nullable) fields must be present and non-None; pyarrow's
           from_pylist does not enforce nullability, so we must.
-        Type mismatches are left to pyarrow, which raises on incompatible values.
+        - Values that pyarrow would convert by silently dropping part of them
+          are rejected: a float with a fractional part (or NaN/inf) for an
+          integer-backed column (int, long, date, time, timestamp), and a
+          datetime carrying a time of day for a date column.
+        Other type mismatches are left to pyarrow, which raises on them.
         """
         # Schema.__post_init__ guarantees every field has a "name".
         allowed = {str(f["name"]) for f in iceberg_schema.fields}
         required = {
             str(f["name"]) for f in iceberg_schema.fields if f.get("required", False)
+        }
+        integer_backed = {
+            str(f["name"]): f.get("type")
+            for f in iceberg_schema.fields
+            if isinstance(f.get("type"), str) and f.get("type") in _INTEGER_BACKED_TYPES
         }
 
         for i, record in enumerate(records):
@@ -530,6 +545,19 @@ class DataFileManager:
                 if record.get(name) is None:
                     raise ValueError(
                         f"Record {i} is missing required field '{name}' (or it is None)"
+                    )
+            for name, f_type in integer_backed.items():
+                value = record.get(name)
+                if isinstance(value, float) and not value.is_integer():
+                    raise ValueError(
+                        f"Record {i}: {value!r} for field '{name}' ({f_type}) has a fractional "
+                        f"part (or is NaN/inf) that the column type cannot represent. "
+                        f"Refusing to silently truncate it."
+                    )
+                if f_type == "date" and isinstance(value, datetime) and value.timetz() != time(0):
+                    raise ValueError(
+                        f"Record {i}: {value!r} for date field '{name}' carries a time of day "
+                        f"(or a timezone) that a date cannot represent. Refusing to silently drop it."
                     )
 
     def write_data_file(
